@@ -642,7 +642,26 @@ func closeGuardedOnce(in ssa.Instruction) bool {
 		return false
 	})
 	if !ok || guardField == nil {
-		return false
+		// the guard may be the nil result of a predicate method: `if err := l.checkStarted(); err != nil { return err }`
+		guardField = nil
+		ok = guardedBy(in.Block(), func(ifi *ssa.If, br bool) bool {
+			call, _, isNil, isErr := errTest(ifi, br)
+			if !isErr || !isNil || call == nil {
+				return false
+			}
+			g := call.Call.StaticCallee()
+			if g == nil || len(g.Blocks) == 0 || len(g.Params) == 0 || len(call.Call.Args) == 0 || pathOf(call.Call.Args[0]).Root != pathOf(in.Parent().Params[0]).Root {
+				return false
+			}
+			if f := nilReturnImpliesField(g); f != nil {
+				guardField = f
+				return true
+			}
+			return false
+		})
+		if !ok || guardField == nil {
+			return false
+		}
 	}
 	cleared := false
 	for _, st := range fieldStores([]*ssa.Function{fn}, guardField) {
@@ -651,4 +670,53 @@ func closeGuardedOnce(in ssa.Instruction) bool {
 		}
 	}
 	return cleared
+}
+
+// nilReturnImpliesField: every nil return of the (side-effect free) predicate method g is reached only through the edge
+// `recv.field != nil`; returns that field.
+func nilReturnImpliesField(g *ssa.Function) *types.Var {
+	pure := true
+	eachInstr(g, func(in ssa.Instruction) {
+		switch in.(type) {
+		case *ssa.Store, *ssa.Send, *ssa.MapUpdate, *ssa.Go:
+			pure = false
+		}
+	})
+	if !pure {
+		return nil
+	}
+	var field *types.Var
+	n := 0
+	for _, rl := range returnLeaves(g, g.Signature.Results().Len()-1) {
+		if !isNilConst(rl.v) {
+			continue
+		}
+		n++
+		var f *types.Var
+		if !condGuardEdge(rl.b, rl.to, func(cd Cond) bool {
+			if cd.Op != token.NEQ {
+				return false
+			}
+			x, y := cd.X, cd.Y
+			if isNilConst(x) {
+				x, y = y, x
+			}
+			ap := pathOf(x)
+			if isNilConst(y) && ap.Root == ssa.Value(g.Params[0]) && ap.Last() != nil {
+				f = ap.Last()
+				return true
+			}
+			return false
+		}) {
+			return nil
+		}
+		if field != nil && field != f {
+			return nil
+		}
+		field = f
+	}
+	if n == 0 {
+		return nil
+	}
+	return field
 }
